@@ -4,8 +4,8 @@ import GeoVerif.Basic.RealLike
 
 `fixcoincident` (centre an intersection of coincident geodesics with respect to a reference point), `segmentmode`
 (the documented segment indicator) and `fixsegment` (place an intersection of coincident segments), polymorphic over
-`RealLike`.  The search itself (`Spherical`, `Basic`, the tilings of `ClosestInt`/`NextInt`/`AllInt0`) is *not*
-modelled.  Core Lean only.
+`RealLike`.  The search bookkeeping around them (`Basic`'s iteration skeleton, `ClosestInt`/`NextInt`/`SegmentInt`/`AllInt0`)
+is modelled in `Model/IntersectSearch.lean`.  Core Lean only.
 -/
 namespace GeoVerif.IntersectFix
 open GeoVerif
